@@ -106,6 +106,32 @@ def cyclic_objects(n):
     return {"main.py": "\n".join(lines) + "\n"}
 
 
+def self_containing(n):
+    """containers stored into themselves and into one another by subscript assignments, appends and field writes made inside called functions."""
+    lines = ["class Cell:", "    def __init__(self):", "        self.me = None", "",
+             "def tie(box, slot):", "    box[slot] = box", "    return box", "",
+             "def link(a, b):", "    a[0] = b", "    b[0] = a", "    return a", "",
+             "def tie_field(o):", "    o.me = o", "    return o", "",
+             "def tie_append(ls):", "    ls.append(ls)", "    return ls", "",
+             "def tie_dict(d, k):", "    d[k] = d", "    return d", ""]
+    for i in range(n):
+        lines += ["l%d = [%d, 0]" % (i, i), "t%d = tie(l%d, 1)" % (i, i)]
+    for i in range(n):
+        lines.append("k%d = link(l%d, l%d)" % (i, i, (i + 1) % n))
+    lines += ["c = Cell()", "cc = tie_field(c)", "ap = tie_append([1])", 'dd = tie_dict({"a": 1}, "k")',
+              "u = t0[1]", "w = u[1]", "z = w[0]", "q = cc.me.me", "e = ap[1]", 'g = dd["k"]["k"]']
+    return {"main.py": "\n".join(lines) + "\n"}
+
+
+def binop_squaring(n):
+    """a two-valued variable combined with itself n times: every level may at most add the new sums (n + 2 values), not square the number of states"""
+    lines = ["def f(c):", "    if c:", "        a = 1", "    else:", "        a = 2", "    b0 = a"]
+    for i in range(1, n + 1):
+        lines.append("    b%d = b%d + b%d" % (i, i - 1, i - 1))
+    lines += ["    return b%d" % n, "r = f(1)"]
+    return {"main.py": "\n".join(lines) + "\n"}
+
+
 def wide(n):
     """one function with n call statements to the same helper and n to a second one."""
     lines = ["def h(a):", "    return a", "def k(a):", "    b = h(a)", "    return b", "def top(a):"]
@@ -179,6 +205,9 @@ HOSTILE = [
     "d = 10\ne = d ** d ** d\n",
     'a = "9**9**9"\nb = a + "**9"\nc = b + b\n',
     'a = "1" + "2"\nb = a + "3"\n',
+    'f = "%1500000000d"\ng = f % 1\n',
+    'a = b"ab"\nb = a * 3000000000\n',
+    'f = "%.999999999f"\ng = f % 1.5\nh = "%5d" % 3\n',
 ]
 
 
@@ -199,15 +228,17 @@ FAMILIES = {
     "cyclic_imports": (cyclic_imports, False),
     "cyclic_objects": (cyclic_objects, False),
     "wide": (wide, False),
+    "self_containing": (self_containing, False),
+    "binop_squaring": (binop_squaring, False),
     "empty_callees": (empty_callees, False),
     "taint_chain": (taint_chain, True),
     "contains_dag": (contains_dag, True),
     "nested_ctor_dag": (nested_ctor_dag, True),
 }
 # families whose interesting sizes differ from the common sweep
-SIZES = {"contains_dag": {"quick": [4, 32], "thorough": [4, 16, 32, 48]}, "nested_ctor_dag": {"quick": [8, 12], "thorough": [8, 12, 14]},
+SIZES = {"binop_squaring": {"quick": [2, 4], "thorough": [2, 3, 4]}, "self_containing": {"quick": [1, 3], "thorough": [1, 2, 3, 6]}, "contains_dag": {"quick": [4, 32], "thorough": [4, 16, 32, 48]}, "nested_ctor_dag": {"quick": [8, 12], "thorough": [8, 12, 14]},
          "mutual": {"quick": [2, 6, 10], "thorough": [2, 4, 6, 10, 12]}}
 # growth families: the number of abstract states (rows of s2space_p3) at the largest size may be at most GROWTH_FACTOR x the number at the smallest one
 # (sizes 8 -> 12: a cubic would give (12/8)^3 = 3.4; doubling per level gives 16)
-GROWTH = {"nested_ctor_dag": 8, "mutual": 6}       # mutual: sizes 6 -> 10 (12): a cubic gives 4.6 (8)
+GROWTH = {"nested_ctor_dag": 8, "mutual": 6, "binop_squaring": 16}    # binop_squaring 2 -> 4: the values grow from 3 to 5; 16x is generous       # mutual: sizes 6 -> 10 (12): a cubic gives 4.6 (8)
 GROWTH_FROM = {"mutual": 6}       # the smallest size that takes part in the growth comparison
